@@ -765,6 +765,22 @@ class MasterSim(object):
             return
         self.tick()
         rack = self.racks[rack_idx % len(self.racks)]
+        if rack_idx % 3:
+            # aim: a rack that already hosts an instance of an application
+            # this server hosts too (affinity counters of the new ancestors)
+            def hosted(server):
+                node = self.tree.nodes.get(z.path.placement(server))
+                return {inst.split('#')[0] for inst in node.children} \
+                    if node is not None else set()
+            mine = hosted(name)
+            cands = sorted({
+                self.parent_of[other] for other in self.parent_of
+                if other != name and
+                self.parent_of[other] != self.parent_of.get(name) and
+                mine & hosted(other)})
+            if cands:
+                rack = cands[rack_idx % len(cands)]
+                self.count('reparent_aimed')
         masterapi.update_server_parent(self.admin, name, rack)
         self.parent_of[name] = rack
 
